@@ -22,7 +22,9 @@ class URLString(DBBase):
     __tablename__ = 'url_strings'
 
     id = Column(Integer, primary_key=True, autoincrement=True)
-    url = Column(String, nullable=False, unique=True, index=True)
+    # The uniqueness is part of CREATE TABLE (a separate CREATE UNIQUE INDEX
+    # is lost for good if the process dies between the two statements)
+    url = Column(String, nullable=False, unique=True)
 
     @classmethod
     def add_urls(cls, session, urls: Iterable[str]):
@@ -38,7 +40,7 @@ class QueuedURL(DBBase):
     # -- URLs --
     url_string_id = Column(
         Integer, ForeignKey(URLString.id),
-        nullable=False, unique=True, index=True,
+        nullable=False, unique=True,
         doc='Target URL to fetch'
     )
     url_string = relationship(
